@@ -589,6 +589,14 @@ def check_run(res, plan, ops, cfg, link=False):
         ext = [n for n in t['items'] if n in t.get('external', ())]
         if ext:
             probs.append((f'{mode} run, after operation {i} {ops[i]}: graph contains unresolved items {ext[:3]}', 'external'))
+    for i, o in enumerate(ops):
+        if o[0] == 'rem':
+            for j in range(i + 1, len(res['trace'])):
+                back = [e for e in res['trace'][j]['deps'] if e[1].split('#')[-1] == o[1]]
+                if back:
+                    probs.append((f'{mode} run: kernel {o[1]} was removed by operation {i}, after operation {j} {ops[j]} the '
+                                  f'graph has the dependency {back[0]} again', 'removed-back'))
+                    break
     last = res['trace'][-1] if res['trace'] else res['init']
     want = sorted(n for n in last['items'] if n in last['procs'])
     got = sorted(x[0] for x in res['probe'])
@@ -763,16 +771,48 @@ class C25(Prop):
     props_module = 'LokiModel.Props.C25'
     findings_module = 'LokiModel.Findings.C25'
     driver = 'Drivers/C25.lean'
-    theorems = []
+    theorems = ['C25_refs_present', 'C25_op_preserves_keys', 'C25_op_closure', 'C25_ops_keys_closure',
+                'C25_rekey_nodup', 'C25_rekey_complete', 'C25_present_of_localClosed', 'C25_rem_preserves_consistent',
+                'C25_rems_preserve_consistent', 'C25_op_noerr', 'C25_op_preserves_consistent_partial']
     design_ref = 'DESIGN.md 4.D C25'
     level = 'proof'
-    level_text = ''
-    level_note = ''
+    level_text = ('Lean theorems about a model (`Rename`) of DuplicateKernel, RemoveKernel, ModuleWrapTransformation, '
+                  'DependencyTransformation, rekey_item_cache and the re-discovery on (program units with resolved references, item '
+                  'cache, graph): for ALL states, operations and operation sequences, planning and conversion: the cache keys equal '
+                  'the current item names (C25_op_preserves_keys, C25_rekey_nodup, C25_rekey_complete), the graph is exactly the '
+                  'closure of the seeds in the rewritten sources and was built without error (C25_op_closure, C25_op_noerr, '
+                  'C25_ops_keys_closure by list induction), every call/import of a graph item names a present graph item under the '
+                  'invariant (C25_refs_present). Full invariant `Consistent` preserved by RemoveKernel and sequences of removals '
+                  '(C25_rem_preserves_consistent, C25_rems_preserve_consistent). _partial: for duplicate / wrap / suffix the '
+                  'presence of every graph item is reduced to a local condition on the rewritten units '
+                  '(C25_present_of_localClosed, C25_op_preserves_consistent_partial with LocalClosed / DefsCached of the result as '
+                  'hypotheses); that the real rewriting meets it outside the known-finding classes is established by the '
+                  'correspondence (state after every operation: items, dependencies, top-level cache keys, key/name mismatches, '
+                  'error kind) and the direct oracle, not by proof.')
+    level_note = ('The model stores references resolved to item names; the textual resolution (same module / USE ONLY / bare '
+                  'name / #include) and fgen are not modelled: the correspondence runs the real frontends (REGEX in planning, FP '
+                  'in conversion) and compares the exported scheduler state after every operation with the model fed with the '
+                  'project spec alone. Names are lower-case in the covered class (no model of lower()). Covered class of the '
+                  'correspondence (Lean `Covered`, Python `covered`): one top-level program unit per file, lower-case suffixes, '
+                  'no duplicate_subgraph, DependencyTransformation last, in planning mode no duplication after a removal; other '
+                  'requests answer (uncovered) on both sides and are judged by the oracle only.')
     technique = 'Lean 4 theorems about a hand-written model + correspondence with the real code'
-    rule = ''
-    trusted_base = []
-    assumptions = []
-    extra_obligations = []
+    rule = ('C22 project generator (call DAG over 3-10 routines in modules / outside modules, header modules; 70% one unit per '
+            'file), own renderer (interface includes for external callees in 60%, module-variable imports from header modules and '
+            'in 25% from kernel modules), config: strict, extra seed, 4% further driver roles; 1-4 operations (60% in '
+            'loki_transform order: duplicate/remove, wrap, suffix; else random) with suffix / module-suffix options; every '
+            'project in planning (REGEX, PLAN) and conversion mode (FP, SEQUENCE, files written to a mkdtemp dir); non-trivial '
+            '= conversion run; distinct by request line')
+    trusted_base = ['harness/props/c25.py snapshot()/scan() (export of the scheduler state, scanner of the written Fortran)',
+                    'harness/props/c25.py check_run/check_files/compile_link (direct oracle), gfortran 12 in the thorough tier',
+                    'C21 generic worklist lemmas (LokiModel.C21.Lemmas, own check)', 'Lean driver evaluation of model definitions']
+    assumptions = ['item names and suffixes are lower-case (covered class)',
+                   'the untouched original files needed by the written files stay in the build, written files replace the '
+                   'original of the same stem (CMake plan semantics, C24)']
+    extra_obligations = ['oracle: cache keys = item names, graph nodes are the cache entries, later processing visits exactly the '
+                         'procedure items under their IR names, every call / USE / imported procedure in the written files is '
+                         'defined in the build set, nothing defined or written twice, planning vs conversion graph',
+                         'thorough tier: gfortran compiles and links the written files with a main program calling the seeds']
     link = False
 
     def gen(self, rng, tier):
